@@ -9,8 +9,16 @@ Generated, fully parenthesised arithmetic programs are rendered and compared
 with a small reference interpreter (vt/gen/c20_gen.py) that produces the
 expected event sequence in evaluation order (short-circuit and/or, inline-if,
 loop filters, macro defaults, set/with) and the expected perturbed output.
+
+Second part: the same programs as LOADER templates (direct, included,
+extending) in families of environments made with Environment.overlay(), each
+member with its own interception configuration; every render through a member
+must produce that member's expected hook log on that member's hook, whatever
+its relatives loaded (and cached) before.
 """
 from __future__ import annotations
+
+import json
 
 from vt.gen import c20_gen as G
 
@@ -24,14 +32,22 @@ RULE = ("case = (subset of the 9 interceptable operators, generated program, syn
         "arguments, list literals); thorough: all 512 subsets, quick: 64 subsets (empty, full, "
         "9 singletons + seeded sample); a case is distinct by (subset, program tree, mode) and "
         "non-trivial when the reference sees >=2 operator applications; programs whose reference evaluation raises/overflows "
-        "are discarded and not counted")
-LEVEL_TEXT = ("hook log == expected event sequence and output == expected perturbed output on "
+        "are discarded and not counted; overlay cases = (step pattern over a parent and one or two "
+        "overlays [who loads first, overlay made before/after the parent loaded, two overlays, overlay "
+        "of an overlay] x configuration of each member [none / the subset / full / random; set on the "
+        "class, on the parent instance before loading, on the overlay instance after overlay()] x "
+        "loader form [direct, include, extends] x cache size x generated program x sync/async), "
+        "3 per (subset, round); counted as distinct when the members expect different hook logs")
+LEVEL_TEXT = ("overlay families: every member's render of a loader template matches the member's own "
+              "configuration on the member's own hook; "
+              "hook log == expected event sequence and output == expected perturbed output on "
               "every executed (subset, program) pair; bounded to the generated expression/statement "
               "fragment and operand types int/float/bool/str")
 ASSUMPTIONS = [
     "operands are int/float/bool/str; user-defined operand types with reflected operators are not generated",
     "the loop-filter cases put arithmetic either in the filter or in the body (not both), so lazy vs eager filtering order is not constrained",
     "macro defaults are exercised with one call directly after the definition",
+    "overlay families: an environment's interception configuration is fixed before that environment loads its first template (class attribute, or instance attribute set on the parent before any load / on the overlay directly after overlay()); re-configuring an environment that already holds compiled templates is not generated",
     "programs whose plain-Python evaluation raises (ZeroDivisionError, TypeError), exceeds 1e12, yields complex numbers, or sums floats with |sum (builtin sum compensates rounding) are discarded",
 ]
 NSHARDS = {"quick": 16, "thorough": 16}
@@ -39,10 +55,14 @@ BUDGET_S = {"quick": 12, "thorough": 240}
 FLOORS = {
     "quick": {"evaluations": 3000, "distinct": 2000,
               "counters": {"hook_events": 6000, "subsets": 64, "events_compared": 6000,
-                           "unintercepted_applications": 6000, "async_renders": 400}},
+                           "unintercepted_applications": 6000, "async_renders": 400,
+                           "overlay_cases": 500, "overlay_renders": 1800,
+                           "overlay_discriminating_cases": 350, "overlay_events_compared": 2500}},
     "thorough": {"evaluations": 80000, "distinct": 60000,
                  "counters": {"hook_events": 200000, "subsets": 512, "events_compared": 200000,
-                              "unintercepted_applications": 200000, "async_renders": 12000}},
+                              "unintercepted_applications": 200000, "async_renders": 12000,
+                              "overlay_cases": 10000, "overlay_renders": 36000,
+                              "overlay_discriminating_cases": 7000, "overlay_events_compared": 50000}},
 }
 
 ALL_OPS = [("b", o) for o in G.BINOPS] + [("u", o) for o in G.UNOPS]
@@ -131,18 +151,25 @@ def run_case(ctx, case, count=True):
     if napplied >= 2:
         ctx.dist([binops, unops, prog, is_async])
     case = dict(case, source=source)
+    compare(ctx, "", "", log, ref.log, out, exp_out, err, binops, unops, source, case)
+    return True
+
+
+def compare(ctx, prefix, who, log, ref_log, out, exp_out, err, binops, unops, source, case):
+    """Judges one render: hook log vs expected event sequence, output vs
+    expected perturbed output.  -> True when everything agrees."""
     if err is not None:
-        ctx.violation("render-raised:" + err.split(":")[0],
-                      f"reference evaluates without error but render raised {err}; source={source}",
+        ctx.violation(prefix + "render-raised:" + err.split(":")[0],
+                      f"{who}reference evaluates without error but render raised {err}; source={source}",
                       case)
-        return True
-    if log != ref.log:
+        return False
+    if log != ref_log:
         # mechanism key: first diverging event's operator and kind of divergence
         i = 0
-        while i < len(log) and i < len(ref.log) and log[i] == ref.log[i]:
+        while i < len(log) and i < len(ref_log) and log[i] == ref_log[i]:
             i += 1
         got = log[i] if i < len(log) else None
-        want = ref.log[i] if i < len(ref.log) else None
+        want = ref_log[i] if i < len(ref_log) else None
         if want is None:
             kind = ("unexpected-event:" + got[0] + got[1]
                     + (":not-intercepted" if got[1] not in (binops if got[0] == "b" else unops) else ""))
@@ -154,14 +181,197 @@ def run_case(ctx, case, count=True):
             kind = "operands-differ:" + want[0] + want[1]
         else:
             kind = "missing-event:" + want[0] + want[1]
-        ctx.violation(kind, f"event #{i}: hook saw {got}, expected {want}; full log {log[:12]} "
-                            f"expected {ref.log[:12]}; source={source}", case)
-        return True
+        ctx.violation(prefix + kind, f"{who}event #{i}: hook saw {got}, expected {want}; full log {log[:12]} "
+                                     f"expected {ref_log[:12]}; source={source}", case)
+        return False
     if out != exp_out:
-        ctx.violation("output-differs-from-hook-result",
-                      f"events equal but output {out!r} != expected {exp_out!r}; source={source}",
+        ctx.violation(prefix + "output-differs-from-hook-result",
+                      f"{who}events equal but output {out!r} != expected {exp_out!r}; source={source}",
                       case)
+        return False
     return True
+
+
+# ------------------------------------------------------- overlay sequences
+# Templates that come from a LOADER (and therefore from the template cache) in
+# a family of environments made with Environment.overlay(): each environment
+# of the family has its own interception configuration (class attribute,
+# attribute set on the parent instance before anything is loaded, attribute set
+# on the overlay instance right after it was created) and every render through
+# an environment must be routed through THAT environment's hook according to
+# THAT environment's configuration, whatever its relatives have loaded before.
+OVERLAY_PATTERNS = {
+    # steps: ["overlay", new, source] / ["render", who]; configuration is applied
+    # to an environment when it is created, before it loads anything
+    "parent_loads_first": [["render", "P"], ["overlay", "O1", "P"], ["render", "O1"],
+                           ["render", "P"], ["render", "O1"]],
+    "overlay_loads_first": [["overlay", "O1", "P"], ["render", "O1"], ["render", "P"],
+                            ["render", "O1"]],
+    "overlay_made_before_parent_load": [["overlay", "O1", "P"], ["render", "P"], ["render", "O1"],
+                                        ["render", "P"]],
+    "two_overlays": [["render", "P"], ["overlay", "O1", "P"], ["overlay", "O2", "P"],
+                     ["render", "O1"], ["render", "O2"], ["render", "P"]],
+    "overlay_of_overlay": [["render", "P"], ["overlay", "O1", "P"], ["render", "O1"],
+                           ["overlay", "O2", "O1"], ["render", "O2"], ["render", "O1"]],
+    "overlay_after_both_loaded": [["render", "P"], ["overlay", "O1", "P"], ["render", "O1"],
+                                  ["overlay", "O2", "P"], ["render", "O2"], ["render", "P"]],
+}
+OVERLAY_VIA = {
+    "direct": lambda src: {"main": src},
+    "include": lambda src: {"main": "{% include 'inner' %}", "inner": src},
+    "extends": lambda src: {"main": "{% extends 'base' %}{% block c %}" + src + "{% endblock %}",
+                            "base": "{% block c %}{% endblock %}"},
+}
+OVERLAY_CACHE_SIZES = [400, -1, 50]
+
+
+def make_loader_env(binops, unops, is_async, how, templates, cache_size):
+    from jinja2 import DictLoader
+    from jinja2.sandbox import SandboxedEnvironment
+
+    class RecEnv(SandboxedEnvironment):
+        def call_binop(self, context, operator, left, right):
+            self.vt_log.append(["b", operator, G.tag(left), G.tag(right)])
+            rv = super().call_binop(context, operator, left, right)
+            return G.perturb(rv)
+
+        def call_unop(self, context, operator, arg):
+            self.vt_log.append(["u", operator, G.tag(arg)])
+            rv = super().call_unop(context, operator, arg)
+            return G.perturb(rv)
+
+    if how == "class":
+        RecEnv.intercepted_binops = frozenset(binops)
+        RecEnv.intercepted_unops = frozenset(unops)
+    env = RecEnv(enable_async=is_async, loader=DictLoader(dict(templates)), cache_size=cache_size)
+    if how != "class":
+        env.intercepted_binops = frozenset(binops)
+        env.intercepted_unops = frozenset(unops)
+    env.vt_log = []
+    return env
+
+
+def run_overlay_case(ctx, case, count=True):
+    """One family of environments, one loader template, a fixed step pattern.
+    case["cfg"][who] = [binops, unops] or None (None: the overlay keeps what
+    it inherited from the environment it was made from)."""
+    prog, is_async, cfgs = case["prog"], case["async"], case["cfg"]
+    source = G.stmts_src(prog)
+    templates = OVERLAY_VIA[case["via"]](source)
+    refs = {}
+
+    def expected(b, u):
+        k = (tuple(b), tuple(u))
+        if k not in refs:
+            ref = G.Ref(b, u)
+            refs[k] = (ref.run(prog, dict(G.CONTEXT)), ref.log)
+        return refs[k]
+
+    envs, eff = {}, {}
+    eff["P"] = cfgs["P"]
+    try:
+        expected(*eff["P"])
+    except G.Discard:
+        if count:
+            ctx.count("discarded_programs")
+        return False
+    envs["P"] = make_loader_env(eff["P"][0], eff["P"][1], is_async, case["how"], templates,
+                                case["cache_size"])
+    nrender = 0
+    trace = []
+    discriminating = False
+    ok = True
+    for step in OVERLAY_PATTERNS[case["pattern"]]:
+        if step[0] == "overlay":
+            _, new, src_name = step
+            ov = envs[src_name].overlay()
+            eff[new] = eff[src_name]
+            if cfgs.get(new) is not None:
+                ov.intercepted_binops = frozenset(cfgs[new][0])
+                ov.intercepted_unops = frozenset(cfgs[new][1])
+                eff[new] = cfgs[new]
+            ov.vt_log = []
+            envs[new] = ov
+            trace.append(step + [eff[new]])
+            continue
+        who = step[1]
+        env = envs[who]
+        b, u = eff[who]
+        try:
+            exp_out, exp_log = expected(b, u)
+        except G.Discard:
+            # (perturbed intermediate results can leave the modelled fragment
+            # under one configuration only)
+            if count:
+                ctx.count("discarded_programs")
+            return False
+        for e in envs.values():
+            e.vt_log = []
+        log = env.vt_log
+        try:
+            out = env.get_template("main").render(**G.CONTEXT)
+            err = None
+        except Exception as e:
+            out, err = None, f"{type(e).__name__}: {e}"
+        nrender += 1
+        trace.append(step)
+        others = {n: e.vt_log for n, e in envs.items() if e is not env and e.vt_log}
+        full = dict(case, overlay=True, source=source, templates=templates, failing_step=len(trace))
+        whotext = (f"overlay family, pattern {case['pattern']} (configured on {case['how']}, via {case['via']}, "
+                   f"cache_size={case['cache_size']}, async={is_async}), steps so far {trace}: render through "
+                   f"{who} whose configuration is binops={b} unops={u}: ")
+        if others:
+            ok = False
+            ctx.violation(f"overlay:hook-of-other-environment:render-through={'parent' if who == 'P' else 'overlay'}",
+                          whotext + f"the hook of {sorted(others)} was called instead: "
+                          f"{[v[:4] for v in others.values()]}; own log {log[:6]}", full)
+        elif not compare(ctx, "overlay:" + ("parent:" if who == "P" else "overlay:"), whotext, log,
+                         exp_log, out, exp_out, err, b, u, source, full):
+            ok = False
+        if count:
+            ctx.count("overlay_hook_events", len(log))
+            ctx.count("overlay_events_compared", len(exp_log))
+        if not ok:
+            break
+    logs = {json.dumps(expected(*c)[1]) for c in eff.values()}
+    discriminating = len(logs) > 1
+    if count:
+        ctx.ev(nrender)
+        ctx.count("overlay_cases")
+        ctx.count("overlay_renders", nrender)
+        ctx.count("overlay_pattern:" + case["pattern"])
+        ctx.count("overlay_via:" + case["via"])
+        if is_async:
+            ctx.count("async_renders", nrender)
+        if discriminating:
+            # the environments of the family expect different hook logs for this program
+            ctx.count("overlay_discriminating_cases")
+            ctx.dist(["ov", case["pattern"], case["cfg"], case["how"], case["via"],
+                      case["cache_size"], prog, is_async])
+    return True
+
+
+def overlay_case_for(rng, b, u, prog, j):
+    """Configurations around the current subset: the parent without interception
+    and the overlay with the subset, the reverse, or two different subsets."""
+    def rand_subset():
+        return ([o for o in G.BINOPS if rng.random() < 0.5], [o for o in G.UNOPS if rng.random() < 0.5])
+    full = (list(G.BINOPS), list(G.UNOPS))
+    mode = rng.randrange(4)
+    if mode == 0:
+        p, o1 = ([], []), ((b, u) if (b or u) else full)
+    elif mode == 1:
+        p, o1 = ((b, u) if (b or u) else full), ([], [])
+    elif mode == 2:
+        p, o1 = (b, u), rand_subset()
+    else:
+        p, o1 = rand_subset(), (b, u)
+    o2 = rng.choice([None, ([], []), full, rand_subset()])
+    pattern = list(OVERLAY_PATTERNS)[rng.randrange(len(OVERLAY_PATTERNS))]
+    return {"pattern": pattern, "cfg": {"P": [list(p[0]), list(p[1])], "O1": [list(o1[0]), list(o1[1])],
+                                        "O2": None if o2 is None else [list(o2[0]), list(o2[1])]},
+            "how": rng.choice(["class", "instance"]), "via": rng.choice(list(OVERLAY_VIA)),
+            "cache_size": rng.choice(OVERLAY_CACHE_SIZES), "prog": prog, "async": j % 3 == 2}
 
 
 def run(ctx):
@@ -175,6 +385,8 @@ def run(ctx):
     max_rounds = 60 if quick else 400
     seen_subsets = set()
     sampled = 0
+    osampled = 0
+    orng = ctx.rng("overlay")
     while rounds < max_rounds:
         for mask, b, u in mine:
             for j in range(per_round):
@@ -185,6 +397,12 @@ def run(ctx):
                 if ok and sampled < 2 and ctx.shard == 0 and (b or u):
                     sampled += 1
                     ctx.sample({"binops": b, "unops": u, "source": G.stmts_src(prog)})
+            for j in range(3):
+                ocase = overlay_case_for(orng, b, u, gen.program(), j)
+                if run_overlay_case(ctx, ocase) and osampled < 1 and ctx.shard == 1:
+                    osampled += 1
+                    ctx.sample({k: v for k, v in ocase.items() if k != "prog"}
+                               | {"source": G.stmts_src(ocase["prog"])})
             if mask not in seen_subsets:
                 seen_subsets.add(mask)
                 ctx.count("subsets")
@@ -198,4 +416,7 @@ def run(ctx):
 
 
 def replay(ctx, case):
-    run_case(ctx, case, count=False)
+    if case.get("overlay"):
+        run_overlay_case(ctx, case, count=False)
+    else:
+        run_case(ctx, case, count=False)
